@@ -80,6 +80,9 @@ func findMapLoops(p *Prog, fn *ssa.Function) []*mapLoop {
 func describeRanged(p *Prog, v ssa.Value) string {
 	switch x := v.(type) {
 	case *ssa.Parameter:
+		if g := p.paramAlwaysGlobal(x, 0); g != nil {
+			return "package variable " + g.Name()
+		}
 		return "parameter " + x.Name()
 	case *ssa.UnOp:
 		if g, ok := x.X.(*ssa.Global); ok {
